@@ -131,7 +131,7 @@ def run(repo, rep, tier):
     month_forms(repo, rep)
     # field extraction (get_date) is the inverse of the date -> JDE conversion: constants must pair up
     from .c01 import d34
-    d34(repo, rep)
+    d34(repo, rep, fields_ok)       # (R-FIELDS executes both conversion terms on boundary instants and checks exact recombination)
     fam = [(MOD, q) for q in repo.mod(MOD).functions if q.startswith(CLS + ".__")] + \
           [(MOD, "Epoch." + q) for q in ("set", "get_date", "get_full_date", "check_input_date", "_check_values", "jde", "mjd")]
     effects.check_functions(repo, rep, fam)
